@@ -16,6 +16,7 @@ TRUSTED = [
     "modelled, not verified: go-diskqueue (a channel's queue is the multiset of messages waiting on it: placement and order are abstracted; only ephemeral queues are bounded), Go channels/select/mutexes (each operation is atomic at quiescence), time (every operation carries the harness's clock reading; timeouts are driven by VerifScan with margins of seconds)",
     "hooks /repo/nsqd/verif_core.go (VerifHeld, VerifScan: build tag verif); /stats over HTTP is the observation",
     "the coarse model is quiescent-to-quiescent: interleavings inside one operation (the windows K1/K2/K3-K5 of DESIGN.md section 6) are below its grain",
+    "schedule-level hand-off model (model/Handoff.v, DESIGN 10.8): the RWMutex (RLock enabled when the closer does not hold the write lock, Lock when nobody holds it; no writer preference: a superset of Go's behaviours), the atomic exit flag (sequentially consistent steps) and Go's defer (the unlock runs on every way out) are modelled, not verified; that the functions listed in gen/CoreShape.v core_touches are the only ones that move a message between a channel's sets or into a topic's queue rests on the translator (tools/gotables/coreshape.go); locks outside the model (Channel.Lock, inFlightMutex, NSQD.Lock) are not part of the no-deadlock statement",
 ]
 ASSUMPTIONS = ["published message ids are fresh (C12)", "disk write errors do not occur"]
 TECHNIQUE = "Coq invariant proofs over all operation histories of the core state machine + trace validation of real nsqd runs (model replay and property monitor evaluated by vm_compute)"
@@ -29,5 +30,6 @@ def drivers():
         return ["-profile", "c05", "-n", str(n), "-ops", "35", "-seed", str(seed)]
     return [{"driver": "coredrive", "args": args, "replay_args": lambda tier: [], "timeout": 1500}]
 LEVEL_TEXT = "Machine-checked proof (Coq) that the model's graceful Exit+restart keeps exactly the durable topics/channels with their paused flags, moves every queued, in-flight and deferred message (same id, attempts count kept) to the channel's queue, keeps finished messages finished and drops ephemeral things, for every state and any number of cycles. Trace validation: real nsqd instances are shut down with Exit() and restarted on the same data path in the middle of random histories; structure, depths, later deliveries (attempts continuing) and the final drain are checked by model replay and by the monitor."
+LEVEL_TEXT = LEVEL_TEXT + " Schedules (model/Handoff.v): for ANY number of REQ / TOUCH / timeout-scan / deferred-scan / topic-pump puts in progress and ANY interleaving with Channel.exit's statements as the CURRENT source has them, the message being moved is among what the close writes (C05_moves_vs_close_every_schedule); every function of package nsqd that pops and pushes a message follows the protocol (regenerated list); the five closer programs cannot deadlock with any movers (C05_close_empty_delete_cannot_deadlock); the consumer pump's hand-off is outside the protocol and is refuted (known finding K3 as a theorem)."
 LEVEL_NOTE = "diskqueue's own metadata/fsync on close and reopen is exercised, not modelled. Shutdown requested in the middle of an operation (windows K3-K5 of DESIGN.md section 6) is below the coarse model's grain."
 DESIGN_REF = "DESIGN.md section 5.0 and C05"
